@@ -83,10 +83,13 @@ func (lex *Lexer) error(msg string) { lex.errs++ }
 
 // isNotCommentEnd: a transition predicate that only looks at the input
 func (lex *Lexer) isNotCommentEnd() bool {
-	if lex.p+1 == len(lex.data) {
+	if lex.p+1 < len(lex.data) && lex.data[lex.p] == '?' && lex.data[lex.p+1] == '>' {
+		return false
+	}
+	if lex.data[lex.p] == '\n' && lex.data[lex.p-1] == '\r' {
 		return true
 	}
-	return lex.data[lex.p] != '?' || lex.data[lex.p+1] != '>'
+	return lex.data[lex.p-1] != '\n' && lex.data[lex.p-1] != '\r'
 }
 
 func (lex *Lexer) Lex() *token.Token {
